@@ -105,6 +105,8 @@ SelPol(allow, names) ==
      ELSE "E_UNKNOWN"]]
 
 Filter(s, Keep(_)) == SelectSeq(s, Keep)
+BackendUnchanged == UNCHANGED state
+ContentUnchanged == UNCHANGED <<imm, blobs, mans, tags, ups>>
 
 CheckedApply(o, pol, sc) ==
   LET cs == StaticCons(o)
@@ -144,9 +146,58 @@ CheckedListFail(o, pol, sc, k) ==
 \* the name delivered together with an error is nothing the policy rejects
 ErrItemOK(name, pol) == name = "" \/ (name \in DOMAIN pol /\ pol[name]["Read"] = PolOk)
 
+\* Nested checkers.  AccessChecker / Select wrappers may be stacked, and several wrappers may be
+\* built on the same inner wrapper; each is a wrapper of its own with its own policy.  A call
+\* made through a wrapper passes the policies on the path from that wrapper down to the backend,
+\* pols = <<outermost, ..., innermost>>.  What HEAD does, and what is specified here: each
+\* level makes all of its own consultations for the call before the next level is entered;
+\* the first level (from the outside) with a failing consultation gives the result - its first
+\* failing consultation's error - and nothing further in is consulted or called.  A
+\* listing is filtered from the inside out: level i checks for Read what level i+1 delivered.
+\* cons' is the sequence of the levels' consultation sequences.
+NestFirstRej(o, pols) ==
+  LET bad == {i \in 1..Len(pols) : Rejected(o, pols[i])} IN
+  IF bad = {} THEN 0 ELSE CHOOSE i \in bad : \A j \in bad : i <= j
+RECURSIVE ReachLevel(_, _, _)       \* the items that level i is handed by level i+1 (the backend's for the innermost)
+ReachLevel(items, pols, i) ==
+  IF i = Len(pols) THEN items
+  ELSE Filter(ReachLevel(items, pols, i + 1), LAMBDA x : pols[i + 1][x]["Read"] = PolOk)
+NestApply(o, pols, sc) ==
+  LET cs == StaticCons(o)
+      j == NestFirstRej(o, pols) IN
+  IF j > 0 THEN
+     LET k == FirstFail(cs, pols[j])
+         id == pols[j][cs[k].n][cs[k].k] IN
+     /\ wres' = ErrR(PolCode(id)) /\ wpe' = id
+     /\ cons' = [i \in 1..Len(pols) |-> IF i < j THEN cs ELSE IF i = j THEN SubSeq(cs, 1, k) ELSE <<>>]
+     /\ bcalls' = <<>> /\ bscopes' = <<>>
+     /\ UNCHANGED vars
+  ELSE
+     /\ Apply(o)
+     /\ wpe' = None
+     /\ bcalls' = BCallsOf(o)
+     /\ bscopes' = [i \in 1..NIface(BCallsOf(o)) |-> sc]
+     /\ IF o.op = "ListRepos" /\ res'.ok
+          THEN /\ cons' = [i \in 1..Len(pols) |->
+                            LET in == ReachLevel(res'.items, pols, i) IN cs \o [x \in 1..Len(in) |-> Q(in[x], "Read")]]
+               /\ wres' = OkItems(Filter(ReachLevel(res'.items, pols, 1), LAMBDA x : pols[1][x]["Read"] = PolOk))
+          ELSE cons' = [i \in 1..Len(pols) |-> cs] /\ wres' = res'
+\* the nest is the conjunction of its policies: a call reaches the backend iff every level allows
+\* it; a rejected call is the outermost refusing level's; listings show what every level allows
+AllAllow(pols, x) == \A i \in 1..Len(pols) : pols[i][x]["Read"] = PolOk
+NestStep(o, pols) ==
+  LET j == NestFirstRej(o, pols) IN
+  /\ j > 0 => /\ BackendUnchanged /\ bcalls' = <<>> /\ ~wres'.ok
+              /\ wpe' = RejectId(o, pols[j]) /\ wres'.code = PolCode(RejectId(o, pols[j]))
+              /\ \A i \in 1..Len(pols) : i > j => cons'[i] = <<>>
+  /\ j = 0 => /\ Apply(o) /\ bcalls' = BCallsOf(o) /\ wpe' = None
+              /\ IF o.op = "ListRepos" /\ res'.ok
+                   THEN /\ wres'.ok
+                        /\ \A x \in Repos : (\E i \in 1..Len(wres'.items) : wres'.items[i] = x)
+                                              <=> (AllAllow(pols, x) /\ \E i \in 1..Len(res'.items) : res'.items[i] = x)
+                   ELSE wres' = res'
+
 \* ---- C12 properties, as predicates on one step that was made for call o under pol
-BackendUnchanged == UNCHANGED state
-ContentUnchanged == UNCHANGED <<imm, blobs, mans, tags, ups>>
 RejectedNeverReachesBackendStep(o, pol) ==
   Rejected(o, pol) => BackendUnchanged /\ bcalls' = <<>>
 ListingFilteredStep(o, pol) ==
@@ -259,6 +310,16 @@ SubApply(o, sc) ==
      /\ bcalls' = <<>> /\ bscopes' = <<>>       \* (what an implementation may send: ConfinedCalls)
      /\ wpe' = None /\ cons' = <<>>
 
+\* The backend's repository listing (asked from the translated start point) fails after k of
+\* ITS items: the view delivers the view names among those, then the backend's error.
+SubListFail(o, sc, k) ==
+  LET bo == [o EXCEPT !.startpos = BStart(o.startpos)] IN
+  /\ o.op = "ListRepos"
+  /\ Apply(bo) /\ res'.ok
+  /\ wres' = [ErrR("FAIL") EXCEPT !.items = StripItems(SubSeq(res'.items, 1, Min(k, Len(res'.items))))]
+  /\ bcalls' = <<BCall(bo)>>
+  /\ bscopes' = <<SubScope(sc)>>
+  /\ wpe' = None /\ cons' = <<>>
 \* ---- C13 properties
 \* every backend call made through the view names only repositories under the prefix, or
 \* strings that are not repository names at all
@@ -286,6 +347,12 @@ EqualsRestrictionStep(o) ==
        ELSE o.op # "ListRepos" => (~wres'.ok /\ ContentUnchanged)
 ListingExactStep(o) ==
   o.op = "ListRepos" => V!ListRepos(o.startpos) /\ BackendUnchanged
+\* ... which is a prefix of what the unbroken listing delivers, and never a success
+SubFailedListingStep(o) ==
+  /\ ~wres'.ok /\ BackendUnchanged
+  /\ \E extra \in SUBSET {r \in ViewRepos : SubName(r) \in touched /\ ~V!HasContent(r)} :
+        LET full == V!After({r \in ViewRepos : V!HasContent(r)} \cup extra, ViewPos.r, o.startpos) IN
+        Len(wres'.items) <= Len(full) /\ wres'.items = SubSeq(full, 1, Len(wres'.items))
 ScopesRewrittenOne(sc, b) ==
   /\ b.unl = sc.unl
   /\ ~sc.unl =>
